@@ -39,6 +39,7 @@ C09.4).
 Sweep: C05.2 a direct un-placement (server set to None) releases the identity as well; C05.6 the in-use walk flags exactly the found outcome, a group that is still referenced is shrunk to zero on every path from that outcome, and the loader removes from the model exactly the groups the store no longer lists (set algebra over the two listings, loop never cut short, no further condition).
 Fifth round: C05.1 acquire_identity is called by the placement loop only; C05.4 the identity groups are loaded before the recorded identities are forced (shared with C11.1); C05.5 the first publication of a new master rewrites every placement the start-up cycle changed (shared with C09.1).
 Sixth round: C05.6 the removal of stale identity groups is reached on every path of the loader, also when the store lists none.
+Seventh round: C05.4 a forced identity is taken out of the group's pool on every path on which it is set; C05.1 no iteration of the placement loop or of a pre-pass ends with an unplaced instance still holding an identity.
 Does NOT decide uniqueness over histories of count changes racing with
 restores (contents of sets over time).
 """
